@@ -49,6 +49,7 @@ THEOREMS = ['C11_inverse_den', 'C11_inverse_complcell_rejects',
             'C11_normalize2_normal_form', 'C11_peg_normal_form',
             'C11_get_ast2_eq_written', 'C11_get_ast2_eq_accepted',
             'C11_peg_any_tokens', 'C11_get_ast2_eq_lexable',
+            'C11_get_ast2_private_syntax_refuted',
             'C11_get_ast2_layout_partial',
             'C11_nested_refuted']
 TRUSTED = [
